@@ -161,7 +161,9 @@ def explore_zint(case):
     return res
 
 
-STICKS = [(0.0, 0.0, 0.0), (1.0, 0.0, 0.0), (0.0, -1.0, 1.0), (-1.0, 1.0, -1.0)]
+STICKS = [(0.0, 0.0, 0.0), (1.0, 0.0, 0.0), (0.0, -1.0, 1.0), (-1.0, 1.0, -1.0), (1.0 / 3, -1.0 / 7, 1.0 / 9)]
+# stick deflections that are on no decimal grid (a stick is a continuous quantity), next to the ends and next to centre
+FINE_STICKS = [1.0 / 3, -1.0 / 7, 0.3337, -0.2504, 0.99951, 1e-4, -0.00049]
 
 
 def explore_velocity(case):
@@ -177,6 +179,24 @@ def explore_velocity(case):
         # the reset flag is a number: any non-zero value asks for a reset (2.0 and -1.0 besides 1.0 at the first step of every word)
         items = list(itertools.product(range(4), (-1.0, 0.0, 1.0), (0.01, 0.5, 5.0, 10.0), range(2), (0.0, 1.0)))
         items0 = list(itertools.product(range(4), (-1.0, 0.0, 1.0), (0.01, 0.5, 5.0, 10.0), range(2), (0.0, 1.0, 2.0, -1.0)))
+    # the off-grid stick member with an off-grid yaw stick, at every step
+    items += list(itertools.product((4,), (0.3337, -2.0 / 3), (0.01, 0.5), range(2), (0.0, 1.0)))
+    items0 += list(itertools.product((4,), (0.3337, -2.0 / 3), (0.01, 0.5), range(2), (0.0, 1.0)))
+    if first == 0:
+        # a previous set-point that was never set (NaN) or has run away (inf): a reset puts the set-point on the vehicle all the same,
+        # and nothing else in the outputs depends on the previous set-point
+        for bad in (np.array([np.nan] * 3), np.array([np.inf, 0.0, 0.0]), np.array([0.0, -np.inf, np.nan]), np.array([1e300, -1e300, 1e300])):
+            for reset in (1.0, 2.0, -1.0):
+                for si in (0, 2, 4):
+                    for pw in pws:
+                        res.count("evaluations")
+                        res.nontrivial.add(hash(("bad_prev", bad.tobytes(), reset, si, pw.tobytes())))
+                        sticks = np.array(list(STICKS[si]) + [0.5])
+                        out = f(0.01, 0.3, bad, pw, sticks, reset)
+                        pw1 = arr(out[2])
+                        if not np.array_equal(pw1, pw) or not all(np.all(np.isfinite(arr(o))) for o in out):
+                            res.fail(site="input_velocity", clause="reset_puts_setpoint_on_vehicle", cls="previous_setpoint_not_finite",
+                                     detail=dict(pw_sp=bad, pw=pw, reset=reset, sticks=sticks, pw_sp1=pw1, outputs_finite=[bool(np.all(np.isfinite(arr(o)))) for o in out]), sub="velocity", case=case)
     start = (0.3, np.array([0.5, 0.0, 1.0]))
     seen = {key_of(np.concatenate([[start[0]], start[1]]))}
     fr = deque([(start, 0, ())])
@@ -266,8 +286,43 @@ def explore_sticks(case):
             res.count("evaluations")
             if maxabs(dd) > 1e-12:
                 res.fail(site="input_acro", clause="affine_in_sticks", cls="-", detail=dict(sticks=s, axis=ax, second_difference=dd), sub="sticks", case=case)
-    # auto level: thrust affine, commanded angles bounded by the configured maximum
+    # off-grid deflections (complete product) and deflections next to every outcome change of the compiled maps along each stick axis
+    from .. import harvest, sxvm
+    lim3 = np.array([r.rollpitch_rate_max * d2r, r.rollpitch_rate_max * d2r, r.yaw_rate_max * d2r])
+    extra = [tuple(x) for x in itertools.product(FINE_STICKS, repeat=4)]
+    prog_acro = sxvm.compile_fn(M["acro"])
+    prog_level = sxvm.compile_fn(M["level"])
     q0 = ref.quat_of(np.array([0.1, -0.2, 0.7]))
+    grid = [k / 10.0 for k in range(-10, 11)]
+    harvested = []
+    for base in ((0.3, -0.2, 0.1, 0.6), (0.0, 0.0, 0.0, 0.0)):
+        for ax in range(4):
+            def stick_at(t, base=base, ax=ax):
+                b = list(base)
+                b[ax] = t
+                return b
+            for prog, mk in ((prog_acro, lambda t: [[trim], [delta], stick_at(t)]), (prog_level, lambda t: [[trim], [delta], stick_at(t), list(q0)])):
+                try:
+                    for t in harvest.ray_members(prog, mk, grid, per_cell=12, cap=60):
+                        harvested.append(tuple(stick_at(t)))
+                except sxvm.NotRational:
+                    pass
+    res.count("harvested_members", len(harvested))
+    for s in extra + harvested:
+        res.count("evaluations")
+        res.nontrivial.add(hash(("fine", s)))
+        out = M["acro"](trim, delta, np.array(s))
+        w, th = arr(out[0]), float(out[1])
+        want = np.array([r.rollpitch_rate_max * d2r * s[0], r.rollpitch_rate_max * d2r * s[1], r.yaw_rate_max * d2r * s[3], trim + s[2] * delta])
+        if maxabs(np.concatenate([w, [th]]) - want) > 1e-12 * (1 + maxabs(want)) or np.any(np.abs(w) > lim3 * (1 + 1e-12)):
+            res.fail(site="input_acro", clause="linear_bounded_stick_map", cls="off_grid", detail=dict(sticks=s, omega=w, thrust=th, want=want), sub="sticks", case=case)
+        out = M["level"](trim, delta, np.array(s), q0)
+        qr, th = arr(out[0]), float(out[1])
+        e = ref.euler321_of_R(ref.R_from_quat(qr)) if np.all(np.isfinite(qr)) else np.array([np.nan] * 3)
+        lim = r.rollpitch_max * d2r
+        if not np.all(np.isfinite(qr)) or abs(th - (trim + s[2] * delta)) > 1e-12 * (1 + abs(trim)) or abs(e[1] - lim * s[1]) > 1e-9 or abs(e[2] - lim * s[0]) > 1e-9:
+            res.fail(site="input_auto_level", clause="linear_bounded_stick_map", cls="off_grid", detail=dict(sticks=s, q_r=qr, thrust=th, euler=e), sub="sticks", case=case)
+    # auto level: thrust affine, commanded angles bounded by the configured maximum
     for s in itertools.product(vals, repeat=4):
         res.count("evaluations")
         out = M["level"](trim, delta, np.array(s), q0)
@@ -310,7 +365,8 @@ def explore_attitude(case):
     B9 = lib.built("SE23Quat")
     B3 = lib.built("SO3Quat")
     qs = attitude_set(seed, tier)
-    gains = [np.array([2.0, 2.0, 2.0]), np.array([2.0, 3.0, 0.5])]
+    # gain patterns: isotropic, all different, and two equal (roll = pitch is how the vehicle is tuned; also pitch = yaw, roll = yaw)
+    gains = [np.array([2.0, 2.0, 2.0]), np.array([2.0, 3.0, 0.5]), np.array([2.0, 2.0, 1.0]), np.array([0.5, 3.0, 3.0]), np.array([6.5, 1.0, 6.5])]
     pairs = [(a, b) for a in qs for b in qs] + [(a, a) for a in qs] + [(a, -a) for a in qs]
     pairs = pairs[part::nparts] + HALF_TURN_PAIRS
     for q, qr in pairs:
@@ -405,7 +461,7 @@ class _V:
     chunks = 2
 
     def cases(self, tier, seed):
-        return [dict(sub="velocity", tier=tier, first=i) for i in range(4 * 3 * 4 * 2 * 4)]
+        return [dict(sub="velocity", tier=tier, first=i) for i in range(4 * 3 * 4 * 2 * 4 + 16)]
 
     def run(self, case):
         return explore_velocity(case)
